@@ -10,7 +10,7 @@
   * trie store: `MTree`, `commitPuts` (trie/database.go `commit`), `Closed`; `commitRun` (batching and the lock/unlock sequence of
     `Database.Commit` under every injected write failure).
   * writers (`Aqv.Model.ChainWriter`): the event log of `WriteBlockWithState` / `reorg` / `insert` / `Stop` /
-    `SetHead`, as written and with the proposed fix.
+    `SetHead`.
 
   Keys are abstract: a block / transaction / trie node is named by a natural number standing for its hash.  Content
   addressing (a hash determines the content) enters the theorems about the writers as the hypothesis that a block is new
@@ -341,8 +341,9 @@ def nodeLoop (limit : Nat) (failAt : Option Nat) : List (Hash × List Hash × Na
       | (true, s2) => nodeLoop limit failAt rest s2
     else nodeLoop limit failAt rest s1
 
-/-- `Database.Commit(node, report)`.  `fixed = false` is the code as written: the error return inside the preimage loop
-    does not release the read lock.  Result: everything done until return, and whether an error was returned. -/
+/-- `Database.Commit(node, report)`.  `fixed = true` is the code as written (since 69e8ea6); `fixed = false` is the code
+    before it: the error return inside the preimage loop did not release the read lock.  Result: everything done until
+    return, and whether an error was returned. -/
 def commitRun (fixed : Bool) (limit : Nat) (pre : List (Hash × Nat)) (nodes : List (Hash × List Hash × Nat))
     (failAt : Option Nat) : List Act × Bool :=
   let s0 : CState := { acts := [.lk .rlock] }
